@@ -289,20 +289,23 @@ func (es *EventSystem) consumeEvents() {
 
 			es.indexMux.RLock()
 			ch, ok := es.topicChans[ev.Query]
-			es.indexMux.RUnlock()
 			if !ok {
+				es.indexMux.RUnlock()
 				es.logger.Debug("channel for subscription not found", "topic", ev.Query)
 				es.logger.Debug("list of available channels", "channels", es.eventBus.Topics())
 				continue
 			}
 
 			// gracefully handle lagging subscribers
+			// the read lock is kept until the send is over: eventLoop closes the topic channel
+			// under the write lock, and a send on a closed channel panics
 			t := time.NewTimer(time.Second)
 			select {
 			case <-t.C:
 				es.logger.Debug("dropped event during lagging subscription", "topic", ev.Query)
 			case ch <- ev:
 			}
+			es.indexMux.RUnlock()
 		}
 
 		time.Sleep(time.Second)
